@@ -83,11 +83,11 @@ K = {
     "C09": {
         "prefix": r"c09_", "jobs": 8, "quick_timeout": 900,
         "functions": ["vm::VmGreenThread::step (ChannelWrite, ChannelRead)", "ChannelObject::{read_value, write_value, copy}", "Value::deep_copy"],
-        "bounds": "one-step harnesses on two real threads sharing one queue of 0, 1 or 2 symbolic values (length concrete per harness): write "
+        "bounds": "one-step harnesses on two real threads sharing one queue of 0, 1, 2 (reads: also 3) symbolic values (length concrete per harness): write "
                   "appends at the back, read takes the front and copies it into the reader's heap, an empty read rewinds pc only; plus the "
                   "ownership obligation 'what the queue holds after a write does not belong to the writer's heap' (a finished writer is "
                   "dropped by the scheduler and its heap freed). Order and exactly-once follow by induction over these steps. Outside: OS "
-                  "threads, queues longer than 2.",
+                  "threads, queues longer than 3.",
         "assumptions": ["std::collections::VecDeque and Mutex behave as documented (single-threaded under Kani)"],
     },
     "C31": {
